@@ -17,6 +17,18 @@ CHECKS = {
  "C04": dict(cat=MC, engine="E1+E4", technique="explicit-state search to closure over the real SkipList's reachable internal states with forced tower heights + BFS over sorted-set command histories with model, cross-checks and structural invariant hook",
    text="(a) the real SkipList is driven through every insert (3-4 members x 7 colliding scores incl. -0/0, +-inf, 1 and 1+eps x forced heights 0..2) and remove until no new internal state (level-0 chain with node heights) appears; in every state the structural invariants (all levels) and every query (rank, by-rank, range-by-rank for all pairs, range-by-score for all score pairs) are compared with a map+sort model. (b) all ZADD/ZINCRBY/ZREM/ZPOP histories up to the completed depth with all rank/score windows probed at every state, model-free cross-checks (ZRANK vs ZRANGE, ZREVRANGE vs ZRANGE, ZCOUNT/ZCARD vs ZRANGE) and the invariant hook on the live key.",
    note="Tower heights above 2 (3 in thorough) and more than 3 (4) members are outside the structure bound; command-level heights follow a fixed deterministic pattern."),
+ "C02": dict(cat=MC, engine="E1+E2", technique="explicit-state BFS over histories with virtual-clock actions (deadline-1ms, deadline+1ms, +999ms, one and two sweeper passes) on the real server with every probe on its own replay + exhaustive placement of client commands in the real sweeper thread's collect->delete window",
+   text="Per value type: all histories up to the completed depth of TTL-setting, TTL-clearing, overwriting, in-place modifying, emptying/re-creating, renaming commands and clock actions; at every distinct state every read and every create-or-update command of that type, EXISTS/TYPE/TTL/PTTL/KEYS/SCAN/RANDOMKEY, NX/XX conditions are each evaluated on a fresh replay (a read may lazily delete) and compared with a model holding exact ns deadlines. Part B parks the real sweeper thread between its read-locked scan and its write-locked deletes and places every command of a menu (bound 1 quick / ordered pairs thorough) inside, before and after the window for 4 set-ups x 6 value types, with a bystander key in the same shard.",
+   note="Time is virtual (clock_gettime/clock_nanosleep overridden in the checker binary); the exact deadline instant is a don't-care; DBSIZE is not used as an absence probe; a sweeper pass running inside a multi-lock command is not explored."),
+ "C15": dict(cat=MC, engine="E1", technique="explicit-state BFS over stream command histories under virtual time (bursts within one ms, clock ticks, explicit ids around the clock and at u64::MAX) against an ordered-map model",
+   text="All XADD(auto/explicit)/XDEL/XTRIM histories up to the completed depth; at every distinct state XRANGE/XREVRANGE over all ordered pairs of bounds drawn from {-, +, 0-0, every present id, id+-1 in seq and ms, last_id, above top}, COUNT 0/1/2, XREAD from every such id, $, two-stream forms, XLEN; internal agreement of last_id, the id-generator atomics and the length counter checked through a hook.",
+   note="Field order inside an entry and null-vs-empty replies are don't-cares; forms outside the property (MINID, NOMKSTREAM, exclusive bounds, BLOCK) are not in the alphabet."),
+ "C16": dict(cat=MC, engine="E1", technique="explicit-state BFS over consumer-group histories (2 groups, 2 consumers, XADD/XDEL in between, clock tick for idle thresholds) against a cursor+PEL model, plus internal consistency hook over the pending indexes and counters",
+   text="All histories up to the completed depth over XGROUP CREATE/DESTROY/SETID/CREATECONSUMER/DELCONSUMER, XREADGROUP (>, COUNT, NOACK, explicit id), XACK (repeated, unknown, several ids), XCLAIM (min-idle 0/1000, FORCE, JUSTID); at every distinct state XPENDING summary and range forms (with and without consumer), XINFO GROUPS/CONSUMERS are compared with the model and ConsumerGroup::verif_check_consistency() is run on every live group.",
+   note="Whether a read that delivers nothing creates the consumer, and '$' taken while the top entry is deleted, are don't-cares; claiming an entry that was XDEL'ed is kept out of the alphabet."),
+ "C20": dict(cat=MC, engine="E4", technique="exhaustive enumeration on the real codec: all frame trees up to a node bound (round trip), all byte strings over the protocol alphabet up to a length bound with all chunkings, every prefix/single-byte substitution of an encoding corpus, differential against an independent RESP reader, hostile declared lengths and nesting under a counting allocator",
+   text="Round trip parse(serialize(v)) = (v, len) for all frame trees with <= 3 (thorough 4) nodes over every RESP2/RESP3 type incl. null forms, binary and CRLF-bearing bulks, +-inf/NaN/-0/5e-324, with four kinds of trailing bytes. Chunking independence of RespParser: every string of length <= 4 (thorough 5) over a 24-symbol protocol alphabet and every prefix and single-byte substitution of ~100 encodings, each fed whole and in every chunking (all chunkings up to 12 bytes, otherwise <= 2/3 cuts plus all-single-bytes); observation = frames and errors in order plus what a sentinel frame fed afterwards yields. Totality/no reservation: declared lengths 2^31-1 .. 10^20 on $ * % ~ (also nested) and nesting depth 10 .. 10^6, each in a worker whose death is attributed to the announced case, largest single allocation <= 64 x input + 64 KiB.",
+   note="When an error is detected (need-more vs error) is not prescribed; non-canonical declared lengths (-0, +1, 01) are don't-cares."),
 }
 
 checks = []
